@@ -22,16 +22,22 @@ type nv struct {
 }
 
 type replayFile struct {
-	Harness string `json:"harness"`
-	Label   string `json:"label"`
+	Harness string  `json:"harness"`
+	Label   string  `json:"label"`
 	Args    []int64 `json:"args"`
-	Values  []nv   `json:"values"`
+	Values  []nv    `json:"values"`
+}
+
+type replaySet struct {
+	Entries []replayFile `json:"entries"`
 }
 
 var (
 	loaded bool
+	rs     replaySet
 	rf     replayFile
 	pos    int
+	cur    int
 	// Failures collects violated assertion labels during a native replay.
 	Failures []string
 )
@@ -52,13 +58,55 @@ func load() {
 	if err != nil {
 		panic(Diverged{err.Error()})
 	}
-	if err := json.Unmarshal(b, &rf); err != nil {
+	if err := json.Unmarshal(b, &rs); err != nil {
 		panic(Diverged{err.Error()})
 	}
 }
 
-// Replay returns the harness name, its integer arguments and the violated label recorded in the replay file.
-func Replay() (string, []int64, string) { load(); return rf.Harness, rf.Args, rf.Label }
+// RunReplay runs every entry of the replay file $VH_REPLAY against the natively compiled
+// harnesses in reg and prints one REPLAY-RESULT line per entry.
+func RunReplay(reg map[string]func([]int64)) {
+	load()
+	for i, e := range rs.Entries {
+		rf, pos, cur, Failures = e, 0, i, nil
+		for _, c := range cleanups {
+			c()
+		}
+		cleanups = nil
+		f, ok := reg[e.Harness]
+		if !ok {
+			fmt.Printf("REPLAY-RESULT %d NOHARNESS %s\n", i, e.Harness)
+			continue
+		}
+		status, detail := "CLEAN", ""
+		func() {
+			defer func() {
+				if r := recover(); r != nil {
+					if d, ok := r.(Diverged); ok {
+						status, detail = "DIVERGED", d.Why
+						return
+					}
+					status, detail = "PANIC", fmt.Sprint(r)
+				}
+			}()
+			f(e.Args)
+		}()
+		if status == "CLEAN" && len(Failures) > 0 {
+			status, detail = "VIOLATED", fmt.Sprint(Failures)
+		} else if status == "PANIC" && len(Failures) > 0 {
+			detail += " after violating " + fmt.Sprint(Failures)
+		}
+		fmt.Printf("REPLAY-RESULT %d %s %s\n", i, status, detail)
+	}
+	for _, c := range cleanups {
+		c()
+	}
+}
+
+var cleanups []func()
+
+// Cleanup registers a function to run when the current replay entry is finished.
+func Cleanup(f func()) { cleanups = append(cleanups, f) }
 
 func next(kind, name string) string {
 	load()
@@ -121,7 +169,7 @@ func Assert(label string, c bool) {
 
 func Reach(label string)              {}
 func Class(name string, c bool)       {}
-func Observe(name string, v any)      { fmt.Printf("OBSERVE %s=%v\n", name, v) }
+func Observe(name string, v any)      { fmt.Printf("REPLAY-OBS %d %s=%s\n", cur, name, fmtObs(v)) }
 func SetUnwind(n int)                 {}
 func Symbolic() bool                  { return false }
 func Not(a bool) bool                 { return !a }
@@ -193,4 +241,23 @@ func UF(name string, arg uint32) *big.Int {
 		return f(arg)
 	}
 	panic(Diverged{"no native meaning for UF " + name})
+}
+
+func fmtObs(v any) string {
+	switch x := v.(type) {
+	case *big.Int:
+		if x == nil {
+			return "<nil>"
+		}
+		return x.String()
+	case chainhash.Hash:
+		return x.String()
+	case time.Time:
+		return strconv.FormatInt(x.Unix(), 10)
+	case bool:
+		return strconv.FormatBool(x)
+	case string:
+		return x
+	}
+	return fmt.Sprint(v)
 }
